@@ -254,3 +254,27 @@ package container
 //@   requires 0 <= size && size <= 1099511627776
 //@   ensures 32 * len(result) >= size && fresh(result)
 //@   ensures forall j in 0..32*len(result) :: !bit(result, j)
+
+// Slice: the indices of the set bits, in increasing order (written into reuse when it is large enough).
+//@ func BitSet.Slice
+//@   mode bv
+//@   option bv-rebase
+//@   option split-joins
+//@   requires len(b) <= 33554432
+//@   modifies reuse[0:cap(reuse)]
+//@   ensures forall k in 0..len(result) :: 0 <= result[k] && result[k] < 32*len(b) && bit(b, result[k])
+//@   ensures forall p in 0..len(result) :: forall q in p+1..len(result) :: result[p] < result[q]
+//@   ensures forall j in 0..32*len(b) :: bit(b, j) ==> exists k in 0..len(result) :: result[k] == j
+//@   ensures fresh(result) || (samearray(result, reuse) && cap(result) == cap(reuse))
+//@   loop 1:
+//@     invariant 0 <= @i && @i <= len(b) && (fresh(ret) || (samearray(ret, reuse) && cap(ret) == cap(reuse)))
+//@     invariant forall k in 0..len(ret) :: 0 <= ret[k] && ret[k] < (@i << 5) && bit(b, ret[k])
+//@     invariant forall p in 0..len(ret) :: forall q in p+1..len(ret) :: ret[p] < ret[q]
+//@     invariant forall j in 0..(@i << 5) :: bit(b, j) ==> exists k in 0..len(ret) :: ret[k] == j
+//@   loop 2:
+//@     invariant 0 <= i && i < len(b) && n == b[i] && 0 <= e && e <= 32 && 0 <= max && max <= 32 && (fresh(ret) || (samearray(ret, reuse) && cap(ret) == cap(reuse)))
+//@     invariant forall t in 0..32 :: t >= max ==> (n & (uint32(1) << uint32(t))) == 0
+//@     invariant forall t in 0..32 :: bit(b, (i << 5) + t) == ((n & (uint32(1) << uint32(t))) != 0)
+//@     invariant forall k in 0..len(ret) :: 0 <= ret[k] && ret[k] < (i << 5) + e && bit(b, ret[k])
+//@     invariant forall p in 0..len(ret) :: forall q in p+1..len(ret) :: ret[p] < ret[q]
+//@     invariant forall j in 0..(i << 5) + e :: bit(b, j) ==> exists k in 0..len(ret) :: ret[k] == j
